@@ -51,6 +51,7 @@ class LibModel:
         self._sig_cache: dict[str, list[tuple[str, ast.expr | None]] | None] = {}
         self._lib_trees: dict[str, ast.ClassDef] = {}
         self.used_lib_names: set[str] = set()
+        self.fresh_timers_running = True
         self._index_lib()
         tr = prog.class_by_simple("LostSegmentTracker")
         if tr is not None:
@@ -257,7 +258,11 @@ class LibModel:
             if args or fr.cls is None or "self" not in st.loc:
                 raise AnalysisError(f"unsupported super() form at {site}")
             return [(Rec("$super", (("cls", fr.cls), ("self", st.loc["self"]))), st)]
-        if name in ("open", "getattr", "setattr", "eval", "exec", "__import__"):
+        if name == "open":
+            s2 = st.fork()
+            ip.event(s2, "hostio", "open", tuple(args), site)
+            return [(Sym(("a", f"hostfile@{site}")), s2)]
+        if name in ("getattr", "setattr", "eval", "exec", "__import__"):
             raise AnalysisError(f"{name}() reached by the interpreter at {site}")
         if name == "list":
             if not args:
@@ -363,11 +368,16 @@ class LibModel:
             return [(ref, s2)]
         if name in ("Countdown.from_seconds", "Countdown.from_millis"):
             s2 = st.fork()
-            ref = s2.alloc("Countdown", {"$epoch": 0, "$interval": args[0] if args else None})
+            ref = s2.alloc("Countdown", {"$epoch": 0, "$interval": args[0] if args else None, "$fresh": True})
             ip.event(s2, "timer", "create", (ref.oid, args[0] if args else None), site)
             return [(ref, s2)]
         if name in ("Countdown.timed_out", "Countdown.busy"):
             ep = st.heap[recv.oid].get("$epoch", 0)
+            if st.heap[recv.oid].get("$fresh") and self.fresh_timers_running:
+                # a timer created (or re-armed) by this very call has not expired yet: intervals are positive
+                s3 = st.fork()
+                ip.event(s3, "timer", "running", (recv.oid,), site)
+                return [(not name.endswith("timed_out"), s3)]
             out = []
             for b, s2 in ip.fork_bool(("timer", recv.oid, ep), st):
                 s3 = s2.fork()
@@ -377,6 +387,7 @@ class LibModel:
         if name == "Countdown.reset":
             s2 = st.fork()
             s2.set_field(recv.oid, "$epoch", st.heap[recv.oid].get("$epoch", 0) + 1)
+            s2.set_field(recv.oid, "$fresh", True)
             ip.event(s2, "timer", "reset", (recv.oid,), site)
             return [(None, s2)]
         if name.startswith("Holder."):
@@ -693,7 +704,7 @@ class LibModel:
         for val, s2 in results:
             s3 = s2.fork()
             if val == "$alloc-countdown":
-                val = s3.alloc("Countdown", {"$epoch": 0, "$provided": True})
+                val = s3.alloc("Countdown", {"$epoch": 0, "$provided": True, "$fresh": True})
                 ip.event(s3, "timer", "create", (val.oid, "provided"), site)
             ip.event(s3, "env", name, frozen + (("ret", val if not isinstance(val, Ref) else "obj"),), site)
             out.append((val, s3))
